@@ -138,7 +138,7 @@ PROPS = {
                              "Miri is the independent UB arbiter for the cast"]),
     "C17": dict(bin="c17", oracle=False, compile_assert="Send + Sync",
                 legs={"quick": [N],
-                      "thorough": [N, MIRI(0.016, shards=16, history=10, perms=1, hammer=40, **{'max-threads': 3}), TSAN(0.1, shards=2, hammer=3000), ASAN(0.03, shards=4, hammer=3000)]},
+                      "thorough": [N, MIRI(0.04, shards=16, history=10, perms=1, hammer=40, **{'max-threads': 3}), TSAN(0.25, shards=2, hammer=3000), ASAN(0.08, shards=4, hammer=3000)]},
                 gates=[("counter_min", "distinct_interleavings_with_overlap", 2), ("counter_min", "overlapping_call_pairs", 100),
                        ("counter_min", "ops_replayed_concurrently", 5000), ("hist_keys_min", "scenario", 4),
                        ("hist_keys_min", "reference_outcome", 3)],
